@@ -1141,9 +1141,23 @@ class Engine:
         hn = ("hasnext", uid)
         # classify the ways out of the loop
         outs = []   # (kind, rel_cond, target or 'return', state, return index)
+        # one way out per target block: `a || b` short-circuits into edges that reach the same block
+        # through empty forwarding blocks
+        grouped = {}
         for tgt, sts in exits.items():
-            for s2 in sts:
-                outs.append([tgt, s2, None])
+            t2 = tgt
+            hops = 0
+            while hops < 8:
+                bb2 = fr.body.blocks[t2]
+                if not bb2["stmts"] and bb2["term"]["k"] == "goto" and bb2["term"]["target"] not in blocks:
+                    t2 = bb2["term"]["target"]
+                    hops += 1
+                else:
+                    break
+            grouped.setdefault(t2, []).extend(sts)
+        for tgt, sts in grouped.items():
+            s2 = self.merge(sts) if len(sts) > 1 else sts[0]
+            outs.append([tgt, s2, None])
         for i in range(len(saved_rets), len(fr.returns)):
             outs.append(["return", fr.returns[i], i])
         early = []
